@@ -5,3 +5,7 @@ import AnyTLS.Props.C18
 #print axioms AnyTLS.C18.active_always_validated
 #print axioms AnyTLS.C18.accepted_undisturbed
 #print axioms AnyTLS.C18.pinned_info_not_active
+#print axioms AnyTLS.C18.listen_reads_after_accept
+#print axioms AnyTLS.C18.listener_is_model
+#print axioms AnyTLS.C18.first_handshake_after_reload
+#print axioms AnyTLS.C18.read_before_accept_serves_stale
